@@ -16,7 +16,7 @@ func c14Layouts(thorough bool) []gen.Layout {
 	nls := []string{"\n", "\r\n", "\r"}
 	blanks := []int{0, 2}
 	anns := []string{"inline", "multi", "multi-broken"}
-	quotes := []bool{false, true}
+	quotes := []int{0, 1, 2} // bare, quoted, quoted with an escaped letter
 	comments := []string{"", "eol", "own-line", "block"}
 	var out []gen.Layout
 	for pi, p := range pads {
@@ -34,7 +34,7 @@ func c14Layouts(thorough bool) []gen.Layout {
 							if dev == 0 || (!thorough && dev > 2) {
 								continue
 							}
-							l := gen.Layout{Pad: p, NL: n, LeadBlank: b, TrailBlank: b, Ann: a, QuoteNames: q, Comments: c, Indent: "\t"}
+							l := gen.Layout{Pad: p, NL: n, LeadBlank: b, TrailBlank: b, Ann: a, QuoteNames: q > 0, EscNames: q == 2, Comments: c, Indent: "\t"}
 							if p == "GLUE" {
 								l.Pad, l.Glue = "", true
 							}
